@@ -180,7 +180,7 @@ func runC16(cfg *vh.Config) error {
 		addCase(stream, term, input, map[string]any{"stages": r.Stages, "methods": r.Methods, "schemas": r.Schemas})
 		if pks[i].mut == nil && r.status("source") == "ok" {
 			decl, extra := coqDeclPackage(p, r.Img)
-			compileCases = append(compileCases, compileRec{term: fmt.Sprintf("CCompile %s %s %s\n    %s", decl, vh.BoolTerm(extra), vh.BoolTerm(p.Awkward || p.FlatHost != ""), coqImg(r.Img)), input: input})
+			compileCases = append(compileCases, compileRec{term: fmt.Sprintf("CCompile %s %s %s\n    %s", decl, vh.BoolTerm(extra), vh.BoolTerm(p.Awkward), coqImg(r.Img)), input: input})
 		}
 		if pks[i].mut == nil {
 			res.Sample(map[string]any{"stream": stream, "package": p.Pkg, "services": len(p.Services), "schemas": len(p.Schemas), "entity": p.Entity != nil, "stages_ok": bad == nil}, 3)
